@@ -38,6 +38,16 @@ type World struct {
 	dataTok map[string]string // hex(bytes) -> data token (payloads and acks the harness knows)
 	Ops     []string          // op lines
 	Impl    []string          // outcome lines
+	Oracle  []string          // implementation-side property oracle hits ("<prop> <signature> ...")
+	// oracle bookkeeping
+	recvOK   map[string]int    // chain|src/dst/seq -> accepted receives
+	ackOK    map[string]int    // chain|src/dst/seq -> accepted acknowledgements
+	cleanPt  map[string]uint64 // chain|src/dst -> highest clean point seen
+	sendSeqs map[string]uint64 // chain|src/dst -> number of successful sends observed
+}
+
+func (w *World) hit(prop, sig string) {
+	w.Oracle = append(w.Oracle, fmt.Sprintf("%s %s @op%d", prop, sig, len(w.Ops)))
 }
 
 func hx(b []byte) string {
@@ -56,7 +66,8 @@ func undash(s string) string {
 
 func NewWorld(t *testing.T, n int) *World {
 	coord := tibctesting.NewCoordinator(t, n)
-	w := &World{T: t, Coord: coord, addr: map[string]string{}, digests: map[string]string{}, dataTok: map[string]string{}}
+	w := &World{T: t, Coord: coord, addr: map[string]string{}, digests: map[string]string{}, dataTok: map[string]string{},
+		recvOK: map[string]int{}, ackOK: map[string]int{}, cleanPt: map[string]uint64{}, sendSeqs: map[string]uint64{}}
 	for i := 0; i < n; i++ {
 		ch := coord.GetChain(tibctesting.GetChainID(i))
 		w.Chains = append(w.Chains, ch)
